@@ -92,14 +92,24 @@ def env_truth(e):
 def eval_bool(e, atom: Callable):
     """Three-valued evaluation of a boolean skeleton; atom(expr) -> True/False/None."""
     if isinstance(e, ast.BoolOp):
-        vals = [eval_bool(v, atom) for v in e.values]
-        if isinstance(e.op, ast.And):
-            if any(v is False for v in vals):
-                return False
-            return None if any(v is None for v in vals) else True
-        if any(v is True for v in vals):
-            return True
-        return None if any(v is None for v in vals) else False
+        # left to right with short circuit, as Python evaluates it: an operand after a deciding one is not evaluated (its atom oracle is
+        # not asked -- `d is SENTINEL or d.attr` never reads the attribute of the sentinel); after an unknown operand the rest is still
+        # evaluated, since it may decide the result
+        unknown = False
+        for v_ in e.values:
+            val = eval_bool(v_, atom)
+            if isinstance(e.op, ast.And):
+                if val is False:
+                    return False
+            elif val is True:
+                return True
+            if val is None:
+                unknown = True
+            elif val not in (True, False):
+                return val  # a marker such as 'unknown-compare'
+        if unknown:
+            return None
+        return isinstance(e.op, ast.And)
     if isinstance(e, ast.UnaryOp) and isinstance(e.op, ast.Not):
         v = eval_bool(e.operand, atom)
         return None if v is None else (not v)
